@@ -452,10 +452,61 @@ class RenewUnknown(_UnknownSubscription):
     target = f'{SB}:SubscriptionsManagerBase.on_renew_request'
     doc = 'Renew: unknown identifier => fault and no state change; known => renew() is applied before the remaining time is reported'
 
+    def callees(self, ex):
+        out = super().callees(ex)
+
+        def remaining(ex_, st, args, kwargs):
+            r = fresh(RealS, 'rem')
+            st.ghost['c:remaining'] = (r, bool(st.ghost.get('c:renewed')))
+            return vreal(r)
+
+        def from_node(ex_, st, args, kwargs):
+            req = st.alloc('Renew')
+            self.req_expires = fresh(Val, 'requested_expires')
+            st.write_field(req, 'Expires', vany(self.req_expires, maybe_none=True))
+            return req
+
+        def renew(ex_, st, args, kwargs):
+            st.ghost['c:renew_arg'] = st.box(args[0]) if args else None
+            return self._renew(ex_, st, args, kwargs)
+        out[f'{SB}:SubscriptionBase.remaining_seconds'] = Pure(remaining, name='remaining_seconds (C08.remaining_seconds)')
+        out['*.from_node'] = Pure(from_node, name='Renew.from_node (C05)')
+        out[f'{SB}:SubscriptionBase.renew'] = Pure(renew, name='renew (C08.renew)')
+        out['*.renew'] = Pure(renew, name='renew (C08.renew)')
+        return out
+
+    def hooks(self, ex):
+        base = super().hooks(ex) if hasattr(super(), 'hooks') else None
+
+        class H:
+            tracked_names = ('Expires', 'remaining_seconds')
+
+            @staticmethod
+            def on_attr_write(ex_, st, o, attr, val, node):
+                if attr == 'Expires':
+                    st.ghost['c:response_expires'] = st.box(val)
+                return None
+
+            @staticmethod
+            def on_attr_read(ex_, st, o, attr, node):
+                if attr == 'remaining_seconds':
+                    r = fresh(RealS, 'rem')
+                    st.ghost['c:remaining'] = (r, bool(st.ghost.get('c:renewed')))
+                    return [(st, vreal(r))]
+                return None
+        return H()
+
     def post(self, ex, st0, st, outcome, b):
         super().post(ex, st0, st, outcome, b)
         if outcome[0] == 'ret':
             ex.oblige(st, 'renew_applied_iff_known', z3.BoolVal(bool(st.ghost.get('c:renewed'))) == self.known.e)
+            rem = st.ghost.get('c:remaining')
+            if st.ghost.get('c:renewed'):
+                ex.oblige(st, 'renewed_with_the_requested_duration', st.ghost.get('c:renew_arg') == self.req_expires
+                          if st.ghost.get('c:renew_arg') is not None else z3.BoolVal(False))
+                ex.oblige(st, 'remaining_time_is_read_after_the_renewal', z3.BoolVal(rem is not None and rem[1]))
+                ex.oblige(st, 'response_reports_the_remaining_time_of_the_renewed_subscription',
+                          st.ghost['c:response_expires'] == Val.real(rem[0]) if rem is not None and 'c:response_expires' in st.ghost else z3.BoolVal(False))
 
 
 @register
